@@ -67,7 +67,8 @@ def check(p, bins, tol, right_continuous, idx):
     idx = numpy.asarray(idx).ravel()
     if idx.shape != pf.shape:
         return [("shape", numpy.arange(1))]
-    finite = numpy.isfinite(pf)
+    # every float64 value except NaN has a place in the order of the edges: -inf lies below the first edge, +inf at or above the last
+    finite = ~numpy.isnan(pf)
     b = bins.astype(numpy.float64)
     n = b.size
     a0 = float(b[0])
@@ -109,7 +110,7 @@ def check(p, bins, tol, right_continuous, idx):
         ok = (idx[pos] == k1) & (k1 <= n - 1)
         k1c = numpy.clip(k1, 0, n - 1)
         dist = b[k1c] - pf[pos]
-        ok &= dist <= band(pf[pos], k1c.astype(float), a0, eps_p, tol)
+        ok &= numpy.isfinite(pf[pos]) & (dist <= band(pf[pos], k1c.astype(float), a0, eps_p, tol))
         if (~ok).any():
             out.append(("below-edge-binned-above", pos[~ok]))
     # --- below the first edge must be -1 (covered by H2 with tk=-1: idx must be -1 or 0-in-band)
